@@ -1691,3 +1691,122 @@ Lemma closed_stdio_now :
   r_ret (fst (uv_spawn closed_stdio_pipe_spec [])) = 0%Z /\
   r_streams (fst (uv_spawn closed_stdio_pipe_spec [])) = [(0, 0)].
 Proof. vm_compute. repeat split; reflexivity. Qed.
+
+(* ------------------------------------------------------------------ *)
+(* M. uv_disable_stdio_inheritance                                       *)
+(* ------------------------------------------------------------------ *)
+Definition mark (e : entry) : entry := mkE (e_file e) true.
+
+(* the numbers the function reaches: everything below 16, and the run of open
+   descriptors that starts at 16 *)
+Definition covered (t : tbl) (d : nat) : Prop :=
+  d < 16 \/ (forall j, 16 <= j -> j <= d -> get t j <> None).
+
+Lemma disable_from_spec : forall fuel fd t B,
+  (forall j, B <= j -> get t j = None) ->
+  Nat.max 16 B < fuel + fd ->
+  (forall j, 16 <= j -> j < fd -> get t j <> None) ->
+  let r := disable_from fuel fd t in
+  (forall d, d < fd -> get r d = get t d) /\
+  (forall d, fd <= d -> covered t d -> get r d = option_map mark (get t d)) /\
+  (forall d, fd <= d -> ~ covered t d -> get r d = get t d).
+Proof.
+  induction fuel as [|f IH]; intros fd t B HB Hf Hrun; cbn [disable_from]; cbv zeta.
+  - split; [auto|]. split; [|auto].
+    intros d Hd _. rewrite (HB d) by lia. reflexivity.
+  - unfold set_cloexec. destruct (get t fd) as [e|] eqn:Eg.
+    + set (t1 := set t fd (Some (mkE (e_file e) true))).
+      assert (Hsame : forall d, d <> fd -> get t1 d = get t d)
+        by (intros d Hd; unfold t1; apply get_set_other; auto).
+      assert (Hfd : get t1 fd = Some (mark e)) by (unfold t1; apply get_set_same).
+      assert (Hopen : forall j, get t1 j <> None <-> get t j <> None).
+      { intros j. destruct (Nat.eq_dec j fd) as [->|Hj].
+        - rewrite Hfd, Eg. split; discriminate.
+        - rewrite Hsame by auto. tauto. }
+      assert (Hcov : forall d, covered t1 d <-> covered t d).
+      { intros d. unfold covered. split; intros [H|H]; auto; right; intros j A1 A2;
+          apply Hopen; apply H; auto. }
+      destruct (IH (S fd) t1 B) as (I1 & I2 & I3).
+      * intros j Hj. destruct (Nat.eq_dec j fd) as [->|Hne].
+        -- rewrite (HB fd Hj) in Eg. discriminate.
+        -- rewrite Hsame by auto. apply HB. auto.
+      * lia.
+      * intros j A1 A2. apply Hopen. destruct (Nat.eq_dec j fd) as [->|Hne]; [congruence|].
+        apply Hrun; lia.
+      * cbv zeta in I1, I2, I3. split; [|split].
+        -- intros d Hd. rewrite I1 by lia. apply Hsame. lia.
+        -- intros d Hd Hc. destruct (Nat.eq_dec d fd) as [->|Hne].
+           ++ rewrite I1 by lia. rewrite Hfd, Eg. reflexivity.
+           ++ rewrite I2; [|lia|apply Hcov; auto]. rewrite Hsame by auto. reflexivity.
+        -- intros d Hd Hc. destruct (Nat.eq_dec d fd) as [->|Hne].
+           ++ exfalso. apply Hc. destruct (Nat.lt_ge_cases fd 16) as [L|G]; [left; auto|].
+              right. intros j A1 A2. destruct (Nat.eq_dec j fd) as [->|Hj]; [congruence|].
+              apply Hrun; lia.
+           ++ rewrite I3; [|lia|rewrite Hcov; auto]. apply Hsame. auto.
+    + destruct (Nat.ltb_spec 15 fd) as [L|G].
+      * split; [auto|]. split; [|auto].
+        intros d Hd [Hc|Hc]; [lia|]. exfalso. apply (Hc fd); auto; lia.
+      * destruct (IH (S fd) t B HB) as (I1 & I2 & I3); [lia|intros; lia|].
+        cbv zeta in I1, I2, I3. split; [|split].
+        -- intros d Hd. apply I1. lia.
+        -- intros d Hd Hc. destruct (Nat.eq_dec d fd) as [->|Hne].
+           ++ rewrite I1 by lia. rewrite Eg. reflexivity.
+           ++ apply I2; auto. lia.
+        -- intros d Hd Hc. destruct (Nat.eq_dec d fd) as [->|Hne].
+           ++ apply I1. lia.
+           ++ apply I3; auto. lia.
+Qed.
+
+Lemma disable_from_files : forall fuel fd t d,
+  option_map e_file (get (disable_from fuel fd t) d) = option_map e_file (get t d).
+Proof.
+  induction fuel as [|f IH]; intros fd t d; cbn [disable_from]; [reflexivity|].
+  unfold set_cloexec. destruct (get t fd) as [e|] eqn:Eg.
+  - rewrite IH. rewrite get_set. destruct (Nat.eqb_spec fd d) as [->|]; [|reflexivity].
+    rewrite Eg. reflexivity.
+  - destruct (15 <? fd); [reflexivity|apply IH].
+Qed.
+
+Lemma get_beyond t j : length t <= j -> get t j = None.
+Proof. intros H. unfold get. apply nth_overflow. auto. Qed.
+
+Theorem disable_stdio_inheritance_spec t :
+  let t' := disable_stdio_inheritance t in
+  (forall d, covered t d -> get t' d = option_map mark (get t d)) /\
+  (forall d, ~ covered t d -> get t' d = get t d).
+Proof.
+  cbv zeta. unfold disable_stdio_inheritance.
+  destruct (disable_from_spec (17 + length t) 0 t (length t)) as (_ & I2 & I3).
+  - apply get_beyond.
+  - lia.
+  - intros j A1 A2. lia.
+  - cbv zeta in I2, I3. split; intros d H; [apply I2|apply I3]; auto; lia.
+Qed.
+
+(* after the call no covered descriptor is inheritable, nothing was opened or
+   closed, and none of the covered descriptors at or above stdio_count is open
+   in a child spawned from such a table *)
+Theorem disable_stdio_inheritance_effect t :
+  let t' := disable_stdio_inheritance t in
+  (forall d e, covered t d -> get t' d = Some e -> e_cx e = true) /\
+  (forall d, option_map e_file (get t' d) = option_map e_file (get t d)) /\
+  (forall d, covered t d -> exec_entry (get t' d) = None).
+Proof.
+  cbv zeta. destruct (disable_stdio_inheritance_spec t) as (A & B). cbv zeta in A, B.
+  split; [|split].
+  - intros d e Hc H. rewrite (A d Hc) in H. destruct (get t d); inversion H. reflexivity.
+  - intros d. apply disable_from_files.
+  - intros d Hc. rewrite (A d Hc). destruct (get t d); reflexivity.
+Qed.
+
+Theorem disable_then_child t us efd tc :
+  let t' := disable_stdio_inheritance t in
+  sources_open t' us -> get t' efd <> None ->
+  child_init us efd None t' = CExec tc ->
+  forall d, length us <= d -> covered t d -> get tc d = None.
+Proof.
+  cbv zeta. intros Ho He Hc d Hd Hcov.
+  destruct (child_fds _ us efd Ho He) as (t2 & E & _ & B).
+  rewrite Hc in E. inversion E; subst t2.
+  rewrite (B d Hd). destruct (disable_stdio_inheritance_effect t) as (_ & _ & X). apply X. auto.
+Qed.
